@@ -144,34 +144,24 @@ EngineRemote(L, u) ==
                  LET i == FirstMatch(L1, u.psel) IN
                  IF i = 0 THEN Res(L1, d.ok, "engine")
                  ELSE IF ~Changeable(L1[i]) THEN Res(L1, FALSE, "engine")
-                 ELSE Res([L1 EXCEPT ![i] = CopyInto(@, u.data[1], FALSE)], d.ok, "engine")          \* copies the flag too
+                 ELSE Res([L1 EXCEPT ![i] = CopyInto(@, u.data[1], TRUE)], d.ok, "engine")           \* (the flag is kept since the fix for WriteAltersFlag)
             ELSE IF Len(u.data) > 0 /\ ~HasId(u.data[1]) THEN
-                 Res([i \in DOMAIN L1 |-> IF Changeable(L1[i]) THEN CopyInto(L1[i], u.data[1], FALSE) ELSE L1[i]],
+                 Res([i \in DOMAIN L1 |-> IF Changeable(L1[i]) THEN CopyInto(L1[i], u.data[1], TRUE) ELSE L1[i]],
                      d.ok /\ \A i \in DOMAIN L1 : Changeable(L1[i]), "engine")
             ELSE \* merge: any unchangeable element fails the write; unknown identifiers are dropped
                  Res(MergeLists(L1, u.data, TRUE, FALSE), d.ok /\ \A i \in DOMAIN L1 : Changeable(L1[i]), "engine")
 
-\* the stored list after the engine's remote write: a failed write keeps the old list object, but selector,
-\* identifier-less and delete-elements writes have already modified changeable elements in place
+\* the stored list after the engine's remote write: a failed write leaves the list as it was (the engine runs on a
+\* copy since the fix recorded for C11 / C04; before it, selector, identifier-less and delete-elements writes had
+\* already modified changeable elements in place: the former deviation FailedWriteAlreadyApplied)
 EngineStored(L, u) ==
-    LET r == EngineRemote(L, u) IN
-    IF r.ok THEN r.list
-    ELSE IF IsFull(u) THEN L
-    ELSE LET d == EngineDelete(L, u)
-             base == d.touched          \* in-place field removal survives the failure; the update step runs on it all the same
-         IN IF u.partial = "sel" THEN
-                 LET i == FirstMatch(base, u.psel) IN
-                 IF i = 0 \/ Len(u.data) = 0 \/ ~Changeable(base[i]) THEN base ELSE [base EXCEPT ![i] = CopyInto(@, u.data[1], FALSE)]
-            ELSE IF Len(u.data) > 0 /\ ~HasId(u.data[1])
-                 THEN [i \in DOMAIN base |-> IF Changeable(base[i]) THEN CopyInto(base[i], u.data[1], FALSE) ELSE base[i]]
-            ELSE base
+    LET r == EngineRemote(L, u) IN IF r.ok THEN r.list ELSE L
 
 \* classification of a remote-write deviation by what went wrong (the names listed in known_findings.json)
 RemoteDevName(L, u, stored, ok) ==
     LET ideal == RemoteIdeal(L, u)
         idealOk == \E r \in ideal : r.ok
     IN  IF IsFull(u) THEN "FullWriteBypassesWriteCheck"
-        ELSE IF ~ok /\ stored # L THEN "FailedWriteAlreadyApplied"
         ELSE IF ~ok /\ idealOk THEN "UnaddressedProtectedElementRejectsWrite"
         ELSE IF ok /\ \E i \in DOMAIN L : \E j \in DOMAIN stored : stored[j].k = L[i].k /\ stored[j].chg # L[i].chg THEN "WriteAltersFlag"
         ELSE IF ok /\ UnknownIds(L, u) # {} THEN "UnknownIdDroppedWithSuccess"
